@@ -100,7 +100,7 @@ class SessionCheck(Check):
             st['replies_delivered'] += sum(1 for x in R.obs[-1]['rpcs'] if ':R' in x)
             st['notifications_taken'] += len(R.obs[-1]['taken'])
         client_caps = list(R.session._client_capabilities)
-        return {'obs': R.obs, 'req_status': R.req_status, 'conn_result': R.conn_result, 'client_caps': client_caps,
+        return {'obs': R.obs, 'req_status': R.req_status, 'conn_result': R.conn_result, 'client_caps': client_caps, 'sync_outcomes': dict(R.sync_outcomes),
                 'closed_by': list(R.ctl.closed_by), 'alive_end': alive_end}
 
     # ---- model ----------------------------------------------------------------------------------
